@@ -102,9 +102,10 @@ def plan(tier, seed):
     return cfgs
 
 
-def records(tier, seed, timeout=3600):
+def records(tier, seed, timeout=7200):
     cfgs = plan(tier, seed)
-    specs = [{"cfgs": [c]} for c in cfgs]
+    opts = {"monitors": True} if tier == "thorough" else None
+    specs = [{"cfgs": [c], "opts": opts} for c in cfgs]
     results = run_pool("vf.scenario", specs, timeout=timeout)
     recs = []
     problems = []
@@ -169,3 +170,23 @@ def brief(rec):
     else:
         out.update(msg=rec.get("exc_msg"))
     return out
+
+
+def add_workload_monitor_results(rep, prop, tier, seed):
+    """Thorough tier: the owning property's monitor also ran inside every real design run of the shared pool."""
+    if tier != "thorough":
+        return
+    recs, problems = records(tier, seed)
+    hits = 0
+    runs = 0
+    for rec in recs:
+        wm = rec.get("workload_monitors")
+        if not wm:
+            continue
+        runs += 1
+        hits += wm["hits"].get(prop, 0)
+        for v in wm["violations"].get(prop, []):
+            rep.violate("design-run:" + v["mechanism"], f"{method_of(rec)}: {v['message']}", {"scenario": rec["cfg"]})
+    rep.extra["design_runs_under_this_monitor"] = runs
+    rep.extra["monitor_evaluations_inside_design_runs"] = hits
+    rep.evaluations += hits
